@@ -102,12 +102,18 @@ EvalNode(n, v, env) ==
     [] n.op = "store"  -> Store(x, y, z)
     [] n.op = "arrite" -> IF x = <<1>> THEN y ELSE z
 PadV(v)       == [i \in 0..Len(v) |-> IF i = 0 THEN <<>> ELSE v[i]]
+(* TLC evaluates [i \in 1..w |-> e] lazily and re-evaluates e on every access (Len, application): values built by
+   Not / And / Xor / ShlK ... would form chains that are re-walked for every bit of every later node - exponential in
+   shared DAGs (a 1085-node design did not finish in 15 minutes).  Every bit-vector node value is therefore made an
+   explicit tuple once (s \o <<>> converts and returns the tuple); array values are records of explicit parts. *)
+ArrValued(op) == op \in {"arrsym", "arrconst", "store", "arrite"}
+Force(n, v)   == IF ArrValued(n.op) THEN v ELSE v \o <<>>
 EvalAll(nodes, env) ==
-  FoldLeft(LAMBDA v, i : Append(v, EvalNode(Norm(nodes[i]), PadV(v), env)), <<>>, Idx(Len(nodes)))
+  FoldLeft(LAMBDA v, i : Append(v, Force(nodes[i], EvalNode(Norm(nodes[i]), PadV(v), env))), <<>>, Idx(Len(nodes)))
 Eval(nodes, root, env) == EvalAll(nodes, env)[root]
 \* evaluation with a value supplied for node ovi (0 = none): that sub-tree is not evaluated
 EvalAllOv(nodes, env, ovi, ovv) ==
-  FoldLeft(LAMBDA v, i : Append(v, IF i = ovi THEN ovv ELSE EvalNode(Norm(nodes[i]), PadV(v), env)), <<>>, Idx(Len(nodes)))
+  FoldLeft(LAMBDA v, i : Append(v, IF i = ovi THEN ovv ELSE Force(nodes[i], EvalNode(Norm(nodes[i]), PadV(v), env))), <<>>, Idx(Len(nodes)))
 
 (* ---- JSON interchange: tagged values  [t, bits, iw, dw, def, ents] ---- *)
 ValOfJson(j)  == IF j.t = "bv" THEN j.bits ELSE ArrOfJson(j)
@@ -120,6 +126,12 @@ ArrOfC(t, j)  == [iw |-> t.iw, dw |-> t.dw, def |-> j.def,
 ValOfC(t, j)  == IF t.k = "bv" THEN j ELSE ArrOfC(t, j)
 \* equality of two values of (spec) type t
 ValEq(t, x, y) == IF t.k = "arr" THEN ArrEq(x, y) ELSE x = y
+\* nodes reachable from a set of roots; children precede parents in a node table, so one backward sweep suffices
+\* (a recursive walk re-visits shared sub-terms: exponential on designs with deep sharing)
+ReachFrom(nodes, roots) ==
+  FoldLeft(LAMBDA M, k : LET i == Len(nodes) + 1 - k IN
+             IF i \in M THEN M \cup { nodes[i].a[j] : j \in 1..Len(nodes[i].a) } ELSE M,
+           roots, Idx(Len(nodes)))
 \* symbol nodes
 IsSym(n)      == n.op \in {"bvsym", "arrsym"}
 SymIdx(nodes) == { i \in 1..Len(nodes) : IsSym(nodes[i]) }
